@@ -1,6 +1,7 @@
 package stun
 
 import (
+	"bytes"
 	"fmt"
 	"net"
 	"os"
@@ -290,4 +291,89 @@ func (o *oracle) oracleDialURI() {
 	}
 }
 
-func TestOracleC17(t *testing.T) { o := newOracle(t); o.oracleURI(); o.oracleDialURI() }
+// oracleDialSequence: one DialConfig reused for several secure dials (and one with a preset ServerName): every
+// dial must present ITS host as the TLS/DTLS server name (visible in clear in the ClientHello the client writes
+// to the injected connection).
+func (o *oracle) oracleDialSequence() {
+	type step struct {
+		scheme SchemeType
+		proto  ProtoType
+		host   string
+	}
+	seqs := [][]step{
+		{{SchemeTypeSTUNS, ProtoTypeTCP, "first.example"}, {SchemeTypeSTUNS, ProtoTypeTCP, "second.example"}},
+		{{SchemeTypeTURNS, ProtoTypeTCP, "first.example"}, {SchemeTypeSTUNS, ProtoTypeTCP, "second.example"}, {SchemeTypeTURNS, ProtoTypeTCP, "third.example"}},
+		{{SchemeTypeTURNS, ProtoTypeUDP, "127.0.0.1"}, {SchemeTypeTURNS, ProtoTypeUDP, "127.0.0.2"}}, // DialURI resolves DTLS peers with the system resolver: literals only
+	}
+	for _, preset := range []string{"", "preset.example"} {
+		for _, seq := range seqs {
+			cfg := &DialConfig{}
+			cfg.TLSConfig.ServerName = preset
+			cfg.DTLSConfig.ServerName = preset
+			cfg.TLSConfig.InsecureSkipVerify = true //nolint
+			cfg.DTLSConfig.InsecureSkipVerify = true
+			for i, st := range seq {
+				o.cases++
+				fn := &oracleNet{}
+				cfg.Net = fn
+				u := &URI{Scheme: st.scheme, Host: st.host, Port: 5349, Proto: st.proto}
+				var c *Client
+				var err error
+				done := make(chan struct{})
+				go func() {
+					defer close(done)
+					defer func() {
+						if r := recover(); r != nil {
+							err = fmt.Errorf("panic: %v", r)
+						}
+					}()
+					c, err = DialURI(u, cfg)
+				}()
+				select {
+				case <-done:
+				case <-time.After(5 * time.Second):
+					o.failf("DialURI(%v/%v %s) did not return", st.scheme, st.proto, st.host)
+					continue
+				}
+				if err != nil || c == nil {
+					o.failf("DialURI(%v/%v %s) step %d with a reused DialConfig: %v", st.scheme, st.proto, st.host, i, err)
+					continue
+				}
+				// the client's reader goroutine starts the handshake: wait for the ClientHello
+				var hello []byte
+				for w := 0; w < 200; w++ {
+					hello = fn.lastWritten()
+					if len(hello) > 40 {
+						break
+					}
+					time.Sleep(5 * time.Millisecond)
+				}
+				go c.Close() //nolint
+				if len(hello) <= 40 {
+					continue // no handshake bytes observed: nothing to compare (not a failure of the property)
+				}
+				if !bytes.Contains(hello, []byte(st.host)) {
+					other := ""
+					isIP := net.ParseIP(st.host) != nil // no server_name extension is sent for IP literals (RFC 6066 s3)
+					for _, h := range []string{"first.example", "second.example", "third.example", "preset.example", "127.0.0.1", "127.0.0.2"} {
+						if h != st.host && bytes.Contains(hello, []byte(h)) {
+							other = h
+						}
+					}
+					if isIP && other == "" {
+						continue
+					}
+					o.failf("DialURI(%v/%v host %q), step %d of a sequence reusing one DialConfig (preset ServerName %q): the ClientHello does not name the URI host (it names %q)",
+						st.scheme, st.proto, st.host, i, preset, other)
+				}
+			}
+		}
+	}
+}
+
+func TestOracleC17(t *testing.T) {
+	o := newOracle(t)
+	o.oracleURI()
+	o.oracleDialURI()
+	o.oracleDialSequence()
+}
